@@ -1,4 +1,5 @@
-import GmQuic.Lemmas.AntiAmpPath
+import GmQuic.Lemmas.AntiAmpMore
+import GmQuic.Lemmas.AntiAmpConcSender
 /-!
 # C15 — an unvalidated address never receives more than 3x what it sent
 
@@ -24,9 +25,6 @@ theorem pinv_fold (r : Rule) (ops : List AaOp) (s : PathSt) (hi : PInv s) (hng :
     · exact pinv_step r s op hi (hng op (by simp)) (hok op (by simp))
     · intro o ho; exact hng o (by simp [ho])
     · intro o ho; exact hok o (by simp [ho])
-
-theorem opOk_fixed (op : AaOp) : OpOk Rule.fixed op := by
-  cases op <;> simp [OpOk, BurstOk, SegOk, Rule.fixed]
 
 /-- **three_x** (DESIGN Appendix A shape): before the address is validated the bytes handed to the
     IO sender never exceed three times the bytes received, and the credit never wrapped — for every
@@ -88,5 +86,150 @@ example :
   intro op hop
   simp at hop
   rcases hop with rfl | rfl | rfl <;> simp [OpOk, BurstOk, SegOk, Rule.asFound]
+
+
+/-- **no_underflow**: in the fixed tree the credit arithmetic never wraps, on any history at all
+    (grants, aborts and closes included). -/
+theorem no_underflow (ops : List AaOp) :
+    (ops.foldl Path.step Path.init).underflow = false := by
+  suffices h : ∀ s : PathSt, s.aa.underflow = false → (ops.foldl Path.step s).aa.underflow = false from
+    h Path.init rfl
+  induction ops with
+  | nil => intro s h; exact h
+  | cons op ops ih => intro s h; exact ih _ (uf_step s op h)
+
+/-- **granted_is_unlimited** (1): `grant` on an unvalidated path takes effect and signals the sender. -/
+theorem grant_takes_effect (s : PathSt) (h : s.aa.state = .normal) :
+    (Path.step s .grant).aa.state = .granted ∧ (Path.step s .grant).aa.sig = true ∧
+      (Path.step s .grant).aa.balance.2 = .unlimited := by
+  simp [Path.step, Path.stepR, grant_eq, h, balance_snd]
+
+/-- **granted_is_unlimited** (2): once granted, every later `balance()` is `usize::MAX` and neither
+    arrivals nor sends touch the credit any more — for every continuation, under either rule. -/
+theorem granted_is_unlimited (r : Rule) (ops : List AaOp) (s : PathSt) (h : s.aa.state = .granted) :
+    let s' := ops.foldl (Path.stepR r) s
+    s'.aa.balance.2 = .unlimited ∧ s'.aa.credit = s.aa.credit ∧ s'.aa.underflow = s.aa.underflow := by
+  induction ops generalizing s with
+  | nil => simp [balance_snd, h]
+  | cons op ops ih =>
+    have hs := granted_step r s op h
+    have := ih _ hs.1
+    simp only [List.foldl_cons]
+    exact ⟨this.1, by rw [this.2.1, hs.2.1], by rw [this.2.2, hs.2.2]⟩
+
+example : ∃ s : PathSt, s.aa.state = .granted :=
+  ⟨Path.step (Path.step Path.init (.rcvd 1200)) .grant, by decide⟩
+
+/-- **abort_stops** (1): `abort` on an unvalidated path takes effect and signals the sender. -/
+theorem abort_takes_effect (s : PathSt) (h : s.aa.state = .normal) :
+    (Path.step s .abort).aa.state = .aborted ∧ (Path.step s .abort).aa.sig = true ∧
+      (Path.step s .abort).aa.balance.2 = .deactivated := by
+  simp [Path.step, Path.stepR, abort_eq, h, balance_snd]
+
+/-- **abort_stops** (2): after an abort nothing is ever sent on the path again and `balance()` is
+    `Ok(None)` (the burst task ends) — for every continuation, a later `grant` included. -/
+theorem abort_stops (ops : List AaOp) (s : PathSt) (h : s.aa.state = .aborted) :
+    let s' := ops.foldl Path.step s
+    s'.sentTotal = s.sentTotal ∧ s'.aa.balance.2 = .deactivated := by
+  induction ops generalizing s with
+  | nil => simp [balance_snd, h]
+  | cons op ops ih =>
+    have hs := aborted_step s op h
+    have := ih _ hs.1
+    simp only [List.foldl_cons]
+    exact ⟨by rw [this.1, hs.2], this.2⟩
+
+example : ∃ s : PathSt, s.aa.state = .aborted :=
+  ⟨Path.step (Path.step Path.init (.rcvd 1200)) .abort, by decide⟩
+
+/-- **resumes_on_rcvd_or_grant** (method granularity): from ANY unvalidated state — in particular one
+    in which `balance()` just answered `Err(CREDIT)` — a received packet of `n > 0` bytes makes
+    `balance()` answer a positive allowance and sets the CREDIT signal; so does a grant (unlimited). -/
+theorem resumes_on_rcvd_or_grant (s : PathSt) (h : s.aa.state = .normal) :
+    (∀ n, 0 < n → s.aa.credit + n * 3 < U →
+      let s' := Path.step s (.rcvd n)
+      s'.aa.sig = true ∧ s'.aa.balance.2 = .some (s.aa.credit + 3 * n)) ∧
+    ((Path.step s .grant).aa.sig = true ∧ (Path.step s .grant).aa.balance.2 = .unlimited) := by
+  refine ⟨?_, ?_⟩
+  · intro n hn hb
+    have hN : N = 3 := rfl
+    have h1 : n * N < U := by rw [hN]; omega
+    simp only [Path.step, Path.stepR, onRcvd_eq, h, h1, ↓reduceIte]
+    rw [fetchAdd_nowrap _ _ (by rw [hN]; omega)]
+    simp only [AA.wake, balance_snd, h, hN]
+    refine ⟨trivial, ?_⟩
+    have : ¬ (s.aa.credit + n * 3 = 0) := by omega
+    simp only [this, ↓reduceIte]
+    congr 1; omega
+  · simp [Path.step, Path.stepR, grant_eq, h, balance_snd]
+
+example : (Path.step Path.init .poll).waiting = true ∧
+    (Path.step (Path.step Path.init .poll) (.rcvd 1)).aa.balance.2 = .some 3 := by decide
+
+/-! ## all interleavings of the atomic operations -/
+
+def NoGrantC (ops : List COp) : Prop := ∀ op ∈ ops, op ≠ COp.callGrant
+
+instance (ops : List COp) : Decidable (NoGrantC ops) := by unfold NoGrantC; infer_instance
+
+theorem conc_rcvd_mono (s : Conc) (op : COp) : s.rcvdTotal ≤ (s.step op).rcvdTotal := by
+  cases op <;> simp only [Conc.step]
+  · omega
+  · exact Nat.le_refl _
+  · exact Nat.le_refl _
+  · exact Nat.le_refl _
+  · cases hs : s.sender <;> simp only
+    · exact Nat.le_refl _
+    · split <;> exact Nat.le_refl _
+    · split <;> exact Nat.le_refl _
+    · split <;> exact Nat.le_refl _
+    · split <;> exact Nat.le_refl _
+    · exact Nat.le_refl _
+
+theorem conc_fold_mono (ops : List COp) (s : Conc) : s.rcvdTotal ≤ (ops.foldl Conc.step s).rcvdTotal := by
+  induction ops generalizing s with
+  | nil => exact Nat.le_refl _
+  | cons op ops ih => exact Nat.le_trans (conc_rcvd_mono s op) (ih _)
+
+theorem cinv_step (s : Conc) (op : COp) (hi : CInv s) (hg : op ≠ .callGrant)
+    (hb : 3 * (s.step op).rcvdTotal < U) : CInv (s.step op) := by
+  cases op with
+  | callGrant => exact absurd rfl hg
+  | callRcvd n => exact cinv_call s _ hi (Or.inl ⟨n, rfl⟩)
+  | callAbort => exact cinv_call s _ hi (Or.inr rfl)
+  | stepPool i => exact cinv_pool s i hi (by simpa [Conc.step] using hb)
+  | senderStep amt => exact cinv_sender s amt hi
+
+theorem cinv_fold (ops : List COp) (s : Conc) (hi : CInv s) (hng : NoGrantC ops)
+    (hb : 3 * (ops.foldl Conc.step s).rcvdTotal < U) : CInv (ops.foldl Conc.step s) := by
+  induction ops generalizing s with
+  | nil => exact hi
+  | cons op ops ih =>
+    simp only [List.foldl_cons] at hb ⊢
+    have hm := conc_fold_mono ops (s.step op)
+    exact ih _ (cinv_step s op hi (hng op (by simp)) (by omega)) (fun o ho => hng o (by simp [ho])) hb
+
+theorem cinv_init : CInv ({} : Conc) :=
+  ⟨rfl, by decide, by simp, by simp [Sender.ok], by decide, by decide, by decide⟩
+
+/-- **three_x / no_underflow over all interleavings**: any number of concurrent `on_rcvd` / `abort`
+    invocations and the single sending task (which sends at most the `balance()` it read), each
+    advancing one atomic operation at a time in any order: before a grant the bytes committed to the
+    wire never exceed 3x the bytes received and `fetch_sub` never wraps.  The only hypothesis is that
+    fewer than 2^64/3 bytes were received (otherwise `fetch_add` itself wraps). -/
+theorem three_x_conc (ops : List COp) (hng : NoGrantC ops) :
+    let s := ops.foldl Conc.step {}
+    3 * s.rcvdTotal < U → s.aa.underflow = false ∧ s.sentTotal ≤ 3 * s.rcvdTotal := by
+  intro s hb
+  have h := cinv_fold ops {} cinv_init hng hb
+  exact ⟨h.uf, Nat.le_trans (Nat.le_add_right _ _) h.i3⟩
+
+/-- non-vacuity: on_rcvd(400) racing with the sender's balance / send / on_sent and an abort. -/
+example :
+    let ops : List COp := [.callRcvd 400, .senderStep 0, .stepPool 0, .senderStep 0, .stepPool 0,
+      .senderStep 0, .senderStep 0, .stepPool 0, .senderStep 0, .senderStep 0, .senderStep 0,
+      .senderStep 700, .callAbort, .senderStep 0, .stepPool 0, .senderStep 0]
+    NoGrantC ops ∧ (ops.foldl Conc.step {}).sentTotal = 700 ∧ (ops.foldl Conc.step {}).aa.credit = 500 := by
+  decide
 
 end GmQuic.Props.C15
